@@ -79,6 +79,9 @@ MANY = [
      ".macro two(x, y) {\n{{ x }}\n{{ y }}\n}\nwrap({\nnop\n}, 7)\nmid(1, {\nclc\n}, 2)\ntwo({\nsei\n}, {\nnop\n})\n", bytes.fromhex("07ea07" "011802" "78ea")),
     ("macros whose names are spelled like mnemonics (rep, inc, asl) -- an identifier directly followed by `(` is an application", "*=0x008000\n.macro rep(n, code) {\n.for k := 0, n {\n{{ code }}\n}\n}\n"
      ".macro inc(v) {\n.db v + 1\n}\n.macro asl() {\nasl\n}\nrep(3, {\nnop\n})\ninc(5)\nasl()\nrep(1, {\nclc\n})\n", bytes.fromhex("eaeaea" "06" "0a" "18")),
+    ("applications that expand to nothing (the last step of a recursion, an empty block) followed by applications that use their parameters",
+     "*=0x008000\n.macro countdown(n) {\n.if n {\n.db n\ncountdown(n - 1)\n}\n}\n.macro put(v) {\n.db v\n}\n.macro pair(lo, hi) {\n.db lo, hi\n}\ncountdown(2)\nput(9)\n{\n}\ncountdown(0)\npair(0x11, 0x22)\nput(0x33)\n",
+     bytes.fromhex("0201" "09" "1122" "33")),
     ("recursion of depth 120 ended by .if", "*=0x008000\n.macro down(n) {\n.db n\n.if n {\ndown(n - 1)\n}\n}\ndown(120)\n", bytes(range(120, -1, -1))),
 ]
 
